@@ -25,6 +25,8 @@ var Registry = map[string]func(Tier) int{
 	"C15": C15,
 	"C07": C07,
 	"C08": C08,
+	"C09": C09,
+	"C10": C10,
 }
 
 // Systems used by `pcheck replay` to re-execute graph replays by name.
@@ -80,4 +82,9 @@ func ReplayFile(path string) int {
 	}
 	fmt.Println("replay: recorded signature not reproduced")
 	return 0
+}
+
+func init() {
+	ShardFuncs["C09"] = c09Shard
+	ShardFuncs["C10"] = c10Shard
 }
